@@ -11,7 +11,7 @@
 From Coq Require Import List Arith Bool NArith.
 From FFSM2 Require Import Model.TaskList Model.BitArray Model.BitStream Model.Plan Model.Ancestors Model.Machine
   Proofs.BitArrayProofs Proofs.TaskListProofs Proofs.TaskListRun Proofs.PlanProofs Proofs.MachineFrame Proofs.MachinePlan Proofs.MachineLife Proofs.GuardProofs Proofs.CycleProofs Proofs.PlanStep
-  Proofs.SerialProofs Proofs.LogProofs Proofs.MachineTop Model.Multi Generated.InitFacts Proofs.ConstructProofs Proofs.LifeMonitor Proofs.ActivationRounds Proofs.IndexSafety Proofs.FeatureProofs Model.Script Proofs.Contract Proofs.Histories Proofs.StatusBits.
+  Proofs.SerialProofs Proofs.LogProofs Proofs.MachineTop Model.Multi Generated.InitFacts Proofs.ConstructProofs Proofs.LifeMonitor Proofs.ActivationRounds Proofs.IndexSafety Proofs.FeatureProofs Model.Script Proofs.Contract Proofs.Histories Proofs.StatusBits Proofs.Worlds Model.Cxx Generated.LeafCode Proofs.LeafTactics Proofs.LeafConsts Proofs.LeafCodeTaskList.
 Import ListNotations.
 
 (* what one processing step does, for every reachable state, every callback behaviour, every n and limit: the active
@@ -107,7 +107,7 @@ Theorem C02_update_processes_at_the_end :
   forall (P : Type) (cfg : config) (orc : oracle P),
          wf_cfg cfg ->
          wf_oracle P cfg orc ->
-         forall (mpre mmid mpost : method) (s : mstate P) (a : nat),
+         forall (mpre mmid mpost : Ancestors.method) (s : mstate P) (a : nat),
          is_life mpre = false ->
          is_life mmid = false ->
          is_life mpost = false ->
@@ -127,7 +127,7 @@ Theorem C02_every_reachable_state_is_ready :
          wf_oracle P cfg orc ->
          forall (lg : bool) (ops : list (api_op P)),
          ops_ok P cfg orc (construct P cfg orc lg) ops ->
-         let s := run P cfg orc lg ops in
+         let s := Machine.run P cfg orc lg ops in
          Inv P cfg s /\ (active P (co P s) < c_n cfg -> Ready P cfg s (active P (co P s))).
 Proof. exact (reachable_ready). Qed.
 Print Assumptions C02_every_reachable_state_is_ready.
@@ -154,11 +154,11 @@ Theorem C02_cut_any_history_anywhere :
          wf_oracle P cfg orc ->
          forall (lg : bool) (pre : list (api_op P)) (op : api_op P) (post : list (api_op P)),
          ops_ok P cfg orc (construct P cfg orc lg) (pre ++ op :: post) ->
-         let s := run P cfg orc lg pre in
+         let s := Machine.run P cfg orc lg pre in
          Inv P cfg s /\
          in_contract P cfg s op /\
          (is_on P cfg s -> Ready P cfg s (active P (co P s))) /\
-         run P cfg orc lg (pre ++ [op]) = fst (step P cfg orc s op) /\
+         Machine.run P cfg orc lg (pre ++ [op]) = fst (step P cfg orc s op) /\
          ops_ok P cfg orc (construct P cfg orc lg) pre.
 Proof. exact (at_every_call). Qed.
 Print Assumptions C02_cut_any_history_anywhere.
@@ -175,8 +175,8 @@ Theorem C02_every_external_request_of_every_history :
                    | None => OChange P d
                    end in
          ops_ok P cfg orc (construct P cfg orc lg) (pre ++ op :: post) ->
-         let s := run P cfg orc lg pre in
-         let s' := run P cfg orc lg (pre ++ [op]) in
+         let s := Machine.run P cfg orc lg pre in
+         let s' := Machine.run P cfg orc lg (pre ++ [op]) in
          active P (co P s') = active P (co P s) /\
          plan P (co P s') = plan P (co P s) /\
          previous P (co P s') = previous P (co P s) /\
@@ -197,12 +197,12 @@ Theorem C02_every_immediate_change_of_every_history :
                    | None => OImmChange P d
                    end in
          ops_ok P cfg orc (construct P cfg orc lg) (pre ++ op :: post) ->
-         let s := run P cfg orc lg pre in
+         let s := Machine.run P cfg orc lg pre in
          let a := active P (co P s) in
          let s0 := change_to P cfg d p s in
          let rounds := loop_rounds P cfg orc (c_limit cfg) (t_empty P) s0 in
          let surv := last_survivor P rounds in
-         let s' := run P cfg orc lg (pre ++ [op]) in
+         let s' := Machine.run P cfg orc lg (pre ++ [op]) in
          a < c_n cfg /\
          d < c_n cfg /\
          length rounds <= c_limit cfg /\
@@ -224,11 +224,11 @@ Theorem C02_every_processing_step_of_every_history :
          forall (lg : bool) (pre : list (api_op P)) (op : api_op P) (post : list (api_op P)),
          ops_ok P cfg orc (construct P cfg orc lg) (pre ++ op :: post) ->
          is_processing_op P op = true ->
-         let s := run P cfg orc lg pre in
+         let s := Machine.run P cfg orc lg pre in
          let a := active P (co P s) in
          exists s5 : mstate P,
            Ready P cfg s5 a /\
-           run P cfg orc lg (pre ++ [op]) = process_request P cfg orc s5 /\
+           Machine.run P cfg orc lg (pre ++ [op]) = process_request P cfg orc s5 /\
            (exists l : list (event P), tr P s5 = l ++ tr P s /\ MachineFrame.quiet P cfg a l).
 Proof. exact (every_processing_step_of_every_history). Qed.
 Print Assumptions C02_every_processing_step_of_every_history.
